@@ -30,8 +30,8 @@ from zorg.service.compiler._file_compiler import ErrorManager, ZorgFileCompiler
 hx.stub_loggers()
 hx.patch_clock(hd)
 hx.patch_clock(fc)
-hx.set(hd, "json", hx.JsonShim)
-hx.set(hd, "_hash_file", lambda p, chunk_size=8192: p.read_text())
+hx.put(hd, "json", hx.JsonShim)
+hx.put(hd, "_hash_file", lambda p, chunk_size=8192: p.read_text())
 KNOWN = set(x for x in os.environ.get("XH_KNOWN", "").split(",") if x)
 PIN_FORM = int(os.environ.get("XH_FORM", "-1"))
 
